@@ -8,6 +8,7 @@ Oracle (one-directional, as the statement): every URL whose latest version was c
 was neither purged nor released answers only-if-cached with 200 and exactly those bytes.
 """
 import os
+import threading
 import time
 
 from hypothesis import strategies as st
@@ -36,6 +37,9 @@ def strategy(tp):
     return st.fixed_dictionaries({
         "store": st.sampled_from(["rock", "ufs", "aufs", "diskd", "rock", "ufs", "rock", "aufs"]),
         "ops": st.lists(op, min_size=8, max_size=24),
+        # a populated cache_dir: the index rebuild and its validation pass work in batches (500 entries per event for the
+        # ufs family), so the statement is also exercised with more entries than one batch holds
+        "bulk": st.sampled_from([0, 0, 520, 0, 0, 1030, 0, 0]),
     })
 
 
@@ -84,6 +88,57 @@ def _rock_class(sq, store, url):
     return ""
 
 
+BULK0 = 1000      # URL numbers of the bulk population
+
+
+def _pool(fn, items, threads=8):
+    out = {}
+    items = list(items)
+    lock = threading.Lock()
+
+    def work():
+        while True:
+            with lock:
+                if not items:
+                    return
+                it = items.pop()
+            v = fn(it)
+            with lock:
+                out[it] = v
+    ts = [threading.Thread(target=work, daemon=True) for _ in range(threads)]
+    for t in ts:
+        t.start()
+    for t in ts:
+        t.join()
+    return out
+
+
+def _bulk_fill(env, sq, content, n):
+    """n small objects, each fetched once; -> {u: version} of those confirmed on disk (SWAPOUT logged, not released,
+    only-if-cached returns the exact bytes without another origin arrival)"""
+    port = sq.ports[0]
+    us = range(BULK0, BULK0 + n)
+    for u in us:
+        content.set_next(u, 40 + (u * 37) % 900)
+    _pool(lambda u: ds.get(env, port, content.path(u)), us)
+    deadline = time.time() + 10
+    while time.time() < deadline:
+        sl = ds.store_log_state(sq)
+        if all((sl.get(env.url(content.path(u))) or {"swapouts": 0})["swapouts"] for u in us):
+            break
+        time.sleep(0.2)
+    sl = ds.store_log_state(sq)
+    probes = _pool(lambda u: ds.oic(env, port, content.path(u)), us)
+    ok = {}
+    for u in us:
+        e = sl.get(env.url(content.path(u)))
+        c = probes.get(u)
+        if (e and e["swapouts"] and not e["released"] and content.arrivals(u) == 1 and ds.judged(c) and c.complete and c.status == 200
+                and c.body == content.body(u, 0)):
+            ok[u] = 0
+    return ok
+
+
 def _run(env, sc, sq, r):
     store = sc["store"]
     port = sq.ports[0]
@@ -92,6 +147,7 @@ def _run(env, sc, sq, r):
         ds.health(sq, r)
         return r
     content = ds.Content(env, env.ns())
+    nbulk = min(sc.get("bulk") or 0, 640) if store == "rock" else (sc.get("bulk") or 0)   # the rock dir has 2048 slots
     state = {}          # u -> {"cur": version or None, "confirmed": bool, "purged": bool}
     n_over = n_purge = 0
     multi = False
@@ -153,6 +209,21 @@ def _run(env, sc, sq, r):
             r.label("released-before-shutdown")      # evicted/invalidated: outside the statement
             continue
         expected[u] = s["cur"]
+    if nbulk:
+        bulk = _bulk_fill(env, sq, content, nbulk)
+        r.label("bulk-population")
+        expected.update(bulk)
+    # Last look before the shutdown: a store may drop an entry without a RELEASE record (a rock entry is evicted when a later
+    # key maps to its anchor), and the statement excludes evicted entries, so only entries that still are hits count.
+    arr0 = {u: content.arrivals(u) for u in expected}
+    last = _pool(lambda u: ds.oic(env, port, content.path(u)), list(expected))
+    for u in list(expected):
+        c = last.get(u)
+        if not (ds.judged(c) and c.complete and c.status == 200 and c.body == content.body(u, expected[u]) and content.arrivals(u) == arr0[u]):
+            del expected[u]
+            r.label("not-a-hit-just-before-shutdown")
+    if len([u for u in expected if u >= BULK0]) > 500:
+        r.label("bulk-population>500-confirmed")
     # ---- clean shutdown
     rc = sq.stop(60)
     if rc is None:
@@ -176,9 +247,10 @@ def _run(env, sc, sq, r):
             r.inconclusive = "rebuild not finished in time"
         return r
     r.sub_evaluations = max(1, len(expected))
+    probes = _pool(lambda u: ds.oic(env, port, content.path(u)), [u for u in expected if u >= BULK0])
     for u, ver in sorted(expected.items()):
         path = content.path(u)
-        m = ds.oic(env, port, path)
+        m = probes[u] if u in probes else ds.oic(env, port, path)
         if not ds.judged(m):
             r.inconclusive = "probe after restart not answered"
             continue
